@@ -1058,6 +1058,38 @@ pub fn run(ctx: &Ctx) -> Report {
     rep.set("fault_documents", n_faults);
     rep.set("fault_base_configurations", bases.len() as u64);
     legal_degenerate(&mut rep);
+    // a kind that is registered a second time is built by the factory registered last (documents mean what the
+    // *registered* components say): "console" re-registered as the capture appender
+    {
+        rep.add("evaluations", 3);
+        for fmt in FORMATS {
+            let tagp = format!("k{}-", CASE.fetch_add(1, Ordering::Relaxed));
+            let mut d = log4rs::config::Deserializers::default();
+            d.insert("console", capture::CaptureDeserializer);
+            let m = |v: Vec<(&str, Node)>| Node::Map(v.into_iter().map(|(k, n)| (k.to_string(), n)).collect());
+            let tree = m(vec![
+                ("appenders", m(vec![("c", m(vec![("kind", s("console")), ("tag", s(&format!("{}c", tagp)))]))])),
+                ("root", m(vec![("level", s("info")), ("appenders", Node::List(vec![s("c")]))])),
+            ]);
+            let sb = Sandbox::new();
+            let path = sb.path(&format!("log4rs.{}", fmt));
+            std::fs::write(&path, render(&tree, fmt)).unwrap();
+            let got = catch_panic(|| -> Result<usize, String> {
+                let cfg = log4rs::config::load_config_file(&path, d).map_err(|e| e.to_string())?;
+                let logger = log4rs::Logger::new(cfg);
+                logger.log(&Record::builder().target("t").level(log::Level::Warn).args(format_args!("overridden")).build());
+                Ok(capture::take_deliveries_for(&tagp).len())
+            });
+            match got {
+                Ok(Ok(1)) => {}
+                other => rep.violation(
+                    "registered-kind:override-not-used",
+                    format!("[{}] kind \"console\" re-registered with the capture factory: expected one captured delivery, got {:?}", fmt, other),
+                    json!({"kind": "override", "format": fmt}),
+                ),
+            }
+        }
+    }
     // file name selects the parser; anything else is an error, not a panic
     let lc = &cat[0];
     // (how unknown, missing or differently-cased extensions are treated is not the property's business: totality only)
